@@ -71,6 +71,10 @@ def gen_plan(rng, scn, kind):
         k = rng.randrange(w, steps + 1)
         plan = [{"steps": k}]
         if rng.random() < 0.4:
+            # killed within the last few steps of a run (fewer jobs in flight than workers), then continued
+            # with a larger step count
+            plan = [{"steps": k, "crash": {"kind": "exit", "after": max(0, k - rng.randrange(1, w + 2))}}]
+        if rng.random() < 0.4:
             plan.append({"steps": k})            # restart without raising steps
         if rng.random() < 0.3:
             plan.append({"steps": k})
